@@ -18,7 +18,7 @@ impl = runner.run_impl_for(prop, lines, wd, prop.impl_env)
 bad = 0
 for l, m, i in zip(lines, model, impl):
     o = prop.oracle(l, i)
-    if o or m != i:
+    if o or not prop.compare(l, m, i):
         bad += 1
         if bad <= int(os.environ.get("SHOW", "8")):
             print("CASE", l[:300]); print("  M:", m[:400]); print("  I:", i[:400]); print("  oracle:", o)
